@@ -62,6 +62,20 @@ theorem Ty.decFull_adt_zero (md : Mode) (m : AdtMeta) (vs : Variants) (d : B) (p
   | nil => simp [Ty.decFull, h]
   | cons n f r => cases r <;> simp [Ty.decFull, h]
 
+theorem Ty.enc_adt_zero_variant (m : AdtMeta) (vs : Variants) (i : Nat) (fs : List Val) (pos : Nat) (h : m.zero = true) :
+    Ty.enc (.adt m vs) (.variant i fs) pos
+      = zeros (pad pos (Ty.maxSizeOf (.adt m vs))) ++ Ty.toMem (.adt m vs) (.variant i fs) := by
+  cases vs with
+  | nil => simp [Ty.enc, h]
+  | cons n f r => cases r <;> simp [Ty.enc, h]
+
+theorem Ty.blocks_adt_zero_variant (m : AdtMeta) (vs : Variants) (i : Nat) (fs : List Val) (pos : Nat) (h : m.zero = true) :
+    Ty.blocks (.adt m vs) (.variant i fs) pos
+      = [⟨pos + pad pos (Ty.maxSizeOf (.adt m vs)), (Ty.toMem (.adt m vs) (.variant i fs)).length, Ty.maxSizeOf (.adt m vs)⟩] := by
+  cases vs with
+  | nil => simp [Ty.blocks, h]
+  | cons n f r => cases r <;> simp [Ty.blocks, h]
+
 theorem Ty.enc_adt_enum (m : AdtMeta) (vs : Variants) (i : Nat) (fs : List Val) (pos : Nat) (h : m.zero = false) :
     Ty.enc (.adt m vs) (.variant i fs) pos = leBytes 8 i ++ Variants.enc vs i fs (pos + 8) := by
   simp [Ty.enc, h]
